@@ -1,5 +1,5 @@
 (* C04 — every explicitly formatted record decodes under the RP66 component grammar. Statements only. *)
-From DV Require Import Model.EflrReader Proofs.EflrP.
+From DV Require Import Model.EflrReader Model.Builder Model.Write Proofs.EflrP Proofs.BuilderP Proofs.WriteP.
 
 (* Every non-empty set whose attribute states are count-consistent (wf_set; guaranteed by the attribute converters)
    is decoded by the strict component reader (Model/EflrReader.v: SET, template of labelled ATTRIB components, OBJECT
@@ -29,6 +29,15 @@ Proof. exact enc_val_dec. Qed.
 Theorem C04_empty_set : forall s, e_objs s = [] -> enc_set s = OK [].
 Proof. intros s H. unfold enc_set. rewrite H. reflexivity. Qed.
 
+(* the hypothesis wf_attr of the two theorems above is not an assumption about the caller: after ANY sequence of API
+   calls (accepted or rejected), starting from the empty file, every attribute of every object — converted by the
+   schema's converter for its slot and handed to the encoder by to_attr — satisfies it. *)
+Theorem C04_reachable_wf : forall ops ps i idx,
+  let st := bstate_of (run_ops ps b_init ops) in
+  let it := nth i (b_items st) dummy_item in
+  wf_attr (to_attr st (nth idx (td_attrs (tdef_at (i_ty it))) dummy_adef) (nth idx (i_attrs it) (SPNone, None))).
+Proof. exact reachable_attrs_wf. Qed.
+
 (* non-vacuity: a set with an empty list, a 2-value list with units, an absent attribute and a reference *)
 Example C04_ex :
   let o := {| on_origin := Some 1; on_copy := 0; on_name := [65] |} in
@@ -45,3 +54,4 @@ Print Assumptions C04_grammar.
 Print Assumptions C04_attribute.
 Print Assumptions C04_value.
 Print Assumptions C04_empty_set.
+Print Assumptions C04_reachable_wf.
